@@ -146,7 +146,7 @@ def strategy():
 
 
 def shards(tier: str, seed: int) -> list[dict]:
-    n_sh, per = (16, 30) if tier == "quick" else (48, 300)
+    n_sh, per = (16, 30) if tier == "quick" else (48, 200)
     return [{"seed": seed * 1000 + i, "n": per} for i in range(n_sh)]
 
 
